@@ -88,6 +88,8 @@ def gen_plan(rng, tier="quick"):
         recipe["dir_first"] = True
     recipe["depth"] = rng.choice(["shelf", "shelf", "deep", "mixed"])
     if rng.random() < 0.15:
+        recipe["global_attrs"] = rng.choice(["cf", "acdd", "model"])
+    if rng.random() < 0.15:
         recipe["origin_site"] = True
     # storage-level variations of the same contents (coordinate dtypes, labels, attributes)
     if rng.random() < 0.12:
